@@ -38,6 +38,13 @@ Fixpoint rpc_walk (after_stop : bool) (started : option rsrc) (h : list rop) (rs
       | _ :: rs' => rpc_walk true None rest rs'       (* every Stop returns *)
       | [] => false
       end
+  | RReq :: rest =>
+      match rs with
+      | r :: rs' =>                                   (* every request returns (its class is C11's subject); an error
+                                                         reply to a valid request means that nothing runs any more *)
+          rpc_walk after_stop (match r with RErr => None | ROk => started end) rest rs'
+      | [] => false
+      end
   end.
 
 (* the last call of the history (self-endings are not calls) *)
